@@ -138,6 +138,51 @@ func formatEngine() {
 			rep.Disagree++
 			rep.violation("C12", "correspondence", "reencode-differs", "pages re-encoded by the model's writers differ from the bytes the code wrote: "+truncate(line, 200), rp)
 		}
+		// the other routes by which the library writes a database file: Tx.WriteTo (hot backup) and
+		// Compact.  What they write must be a version-2 file too: decodable by the independent
+		// reader with the same content, both meta pages valid with the right page headers, every page
+		// re-encodable by the model's writers.
+		if i%2 == 0 {
+			for _, route := range []string{"WriteTo", "Compact"} {
+				cp := filepath.Join(dir, fmt.Sprintf("f%d-%s.db", i, route))
+				_ = os.Remove(cp)
+				sdb, err := bolt.Open(path, 0o600, &bolt.Options{ReadOnly: true, Timeout: time.Second})
+				if err != nil {
+					continue
+				}
+				want := "dump:" + hashStr(dumpDB(sdb))
+				var werr error
+				if route == "WriteTo" {
+					werr = sdb.View(func(tx *bolt.Tx) error { return tx.CopyFile(cp, 0o600) })
+				} else {
+					ddb, err := bolt.Open(cp, 0o600, &bolt.Options{Timeout: time.Second, PageSize: o.PageSize})
+					if err == nil {
+						werr = bolt.Compact(ddb, sdb, int64(rng.Intn(3))*int64(o.PageSize))
+						_ = ddb.Close()
+					} else {
+						werr = err
+					}
+				}
+				_ = sdb.Close()
+				rep.Evaluations++
+				rp2 := map[string]any{"options": o.String(), "opts": o, "ops": opLines(ops), "route": route}
+				if werr != nil {
+					rep.violation("C12", "monitor", "route-fails:"+route, fmt.Sprintf("%s fails: %v", route, werr), rp2)
+					continue
+				}
+				dec2, ok2 := leanDecode(cp)
+				if !ok2 || leanVerdictBad(dec2) || dec2[1] != want || (len(dec2) > 7 && dec2[7] != "metas m0=true m1=true") {
+					rep.violation("C12", "monitor", "route-not-v2:"+route, fmt.Sprintf("the file written by %s is not what the independent v2 reader expects: %v (content wanted %s)", route, dec2[min(len(dec2)-1, 1):], want), rp2)
+				}
+				out2, err2 := exec.Command(*flagModel, "reencode", cp, fmt.Sprint(os.Getpagesize())).Output()
+				if line2 := strings.TrimSpace(string(out2)); err2 != nil || !strings.HasSuffix(line2, "bad=-") {
+					rep.Disagree++
+					rep.violation("C12", "correspondence", "reencode-differs:"+route, "pages of the file written by "+route+" re-encoded by the model's writers differ: "+truncate(line2, 200), rp2)
+				}
+				rep.count("route-" + route)
+				_ = os.Remove(cp)
+			}
+		}
 		if i < 2 {
 			rep.sample(map[string]any{"options": o.String(), "decode": dec[0], "reencode": line})
 		}
